@@ -237,7 +237,8 @@ fn write_forwarded_suffix(
 /// Kawa's token scanners accept zero characters: a request line without method
 /// (`" / HTTP/1.1"`) or without target (`"GET  HTTP/1.1"`, routed as `/`) and a
 /// field line without name (`": v"`) are parsed and forwarded verbatim although
-/// RFC 9112 §3 and RFC 9110 §5.1 require at least one character.
+/// RFC 9112 §3 and RFC 9110 §5.1 require at least one character. They also
+/// let `"` and `/` through in methods and field names, which are not tokens.
 fn invalid_h1_request_head(request: &GenericHttpStream) -> Option<&'static str> {
     let (version, method, uri) = match &request.detached.status_line {
         kawa::StatusLine::Request {
@@ -256,6 +257,12 @@ fn invalid_h1_request_head(request: &GenericHttpStream) -> Option<&'static str> 
     if is_empty(method) || is_empty(uri) {
         return Some("empty method or request-target");
     }
+    // `"` and `/` are the two non-token characters kawa's `tchar` lookup lets
+    // through (see the note in its `primitives.rs`).
+    let is_token = |data: &[u8]| !data.iter().any(|b| matches!(b, b'"' | b'/'));
+    if !is_token(method.data(buf)) {
+        return Some("method is not a token");
+    }
     let mut transfer_encodings = 0;
     for block in &request.blocks {
         let kawa::Block::Header(header) = block else {
@@ -265,8 +272,8 @@ fn invalid_h1_request_head(request: &GenericHttpStream) -> Option<&'static str> 
             continue;
         }
         let key = header.key.data(buf);
-        if key.is_empty() {
-            return Some("empty field name");
+        if key.is_empty() || !is_token(key) {
+            return Some("field name is empty or not a token");
         }
         if compare_no_case(key, b"content-length") {
             let value = header.val.data(buf);
